@@ -179,7 +179,8 @@ def plot_production_comparison(
         time = np.arange(len(prod_data["Days"]))
     else:
         prod_data = prod_data[["Days", "Gas", "Pressure"]]
-        time = prod_data["Days"]
+        # rows in table order, whatever the table's row labels (the simulator indexes time by position)
+        time = np.array(prod_data["Days"])
 
     pressure_fracface = np.array(prod_data["Pressure"])
     #
